@@ -12,7 +12,7 @@ import (
 // arguments, generic and method generators) and mix pull-style and range-style consumption
 // on one iterator value. Knobs are drawn per batch. src and ref differ only in the marked
 // places («Iter[T]», «Yield», «RANGE(x)») and in the refco.Go wrapping of generator bodies.
-func consumerTemplates(r *prng.R, tag func() int) (src, ref []string, funcs []*Func) {
+func consumerTemplates(r *prng.R, tag func() int) (src, ref []string, funcs []*Func, plain []string, plainFuncs []*Func) {
 	k1, k2, k3 := r.Range(1, 3), r.Range(0, 4), r.Range(2, 5)
 	brk := r.Range(0, 4)
 	common := fmt.Sprintf(`type Box struct {
@@ -74,12 +74,24 @@ func (r *Rcv) GenPtr(n int) (_ «Iter[int]») {
 	}
 	return
 }
-`, tag(), tag())
+
+// a package-level iterator variable that no statement of THIS file writes
+var pkgSrc «Iter[int]»
+
+func GenOverPkgVar(k int) «Iter[int]» {
+	for v := range «RANGE(pkgSrc)» { // the operand is evaluated once, when the loop starts
+		vrt.E(%[3]d, v)
+		«Yield»(v*2 + k)
+	}
+	return nil
+}
+`, tag(), tag(), tag())
 	// the same bodies wrapped for the reference
 	genRef := strings.NewReplacer(
 		"func GenT[T any](xs []T, stop int) «Iter[T]» {\n", "func GenT[T any](xs []T, stop int) «Iter[T]» {\n\treturn refco.Go(func(ʏ *refco.Y[T]) {\n",
 		"func (r Rcv) Gen(n int) «Iter[int]» {\n", "func (r Rcv) Gen(n int) «Iter[int]» {\n\treturn refco.Go(func(ʏ *refco.Y[int]) {\n",
 		"func (r *Rcv) GenPtr(n int) (_ «Iter[int]») {\n", "func (r *Rcv) GenPtr(n int) «Iter[int]» {\n\treturn refco.Go(func(ʏ *refco.Y[int]) {\n",
+		"func GenOverPkgVar(k int) «Iter[int]» {\n", "func GenOverPkgVar(k int) «Iter[int]» {\n\treturn refco.Go(func(ʏ *refco.Y[int]) {\n",
 		"\treturn nil\n}\n", "\treturn\n\t})\n}\n",
 		"\treturn\n}\n", "\treturn\n\t})\n}\n",
 		"\t\t\treturn nil\n", "\t\t\treturn\n",
@@ -167,6 +179,25 @@ func UseNested(a, b int) int {
 		{Name: "UseRebind", Params: []string{"a", "b"}, Args: [][]int{small, small}, Feat: []string{"pull_helper_closures_over_rebound_iterator_variable"}},
 		{Name: "UseNested", Params: []string{"a", "b"}, Args: [][]int{small, small}, Feat: []string{"nested_consumer_ranges"}},
 	}
+	// a plain file of the package (it does not mention the API): the writes to pkgSrc live here
+	plain = []string{fmt.Sprintf(`func UseRotate(a, b int) int {
+	pkgSrc = (Rcv{10}).Gen(3)
+	g := GenOverPkgVar(a)
+	sum := 0
+	if g.MoveNext() {
+		sum = g.Current()
+	}
+	pkgSrc = (Rcv{100}).Gen(b %% 3) // re-assigned between two pulls of g: g's loop must not notice
+	for g.MoveNext() {
+		sum = sum*10 + g.Current()
+	}
+	for pkgSrc.MoveNext() { // untouched by g
+		sum = sum*10 + pkgSrc.Current()
+	}
+	return vrt.V(%d, sum)
+}
+`, tag())}
+	plainFuncs = []*Func{{Name: "UseRotate", Params: []string{"a", "b"}, Args: [][]int{small, small}, Feat: []string{"range_over_package_level_iterator_variable_reassigned_in_another_file"}}}
 	return
 }
 
